@@ -208,7 +208,8 @@ def c_expect(obs: dict) -> str:
     ntfs = C.clist(("NStarting" if nm == "starting" else "NStopping" if nm == "stopping" else f"{NTF[nm]} {C.cz(t)}")
                    for nm, t in obs["ntfs"])
     ob = C.clist(f"ObsV {C.cnat(s)} {C.cz(v)} {C.cz(t)}" for s, v, t in obs["obs"])
-    return f"(mkExpect {snaps} {trace} {outs} {ntfs} {ob} {C.cbool(obs['alive'])})"
+    canc = C.clist(C.cnat(k) for k in obs.get("canc", []))
+    return f"(mkExpect {snaps} {trace} {outs} {ntfs} {ob} {canc} {C.cbool(obs['alive'])})"
 
 
 def c_case(case: dict, obs: dict) -> str:
